@@ -893,10 +893,18 @@ class PyvalColorizer:
                 if args[0] is not None:
                     raise ValueError('Branch expected None arg but got %s'
                                      % args[0])
+                # The regex parser factors the common prefix of the alternatives out of the branch
+                # ('foo|foobar' is parsed as 'foo' followed by the branch ''|'bar'): when the branch
+                # is not alone, it needs its own group, or the display would mean 'foo|bar'.
+                grouped = len(tree) > 1
+                if grouped:
+                    self._output('(?:', self.RE_GROUP_TAG, state)
                 for i, item in enumerate(args[1]):
                     if i > 0:
                         self._output('|', self.RE_OP_TAG, state)
                     self._colorize_re_tree(item, state, True, groups)
+                if grouped:
+                    self._output(')', self.RE_GROUP_TAG, state)
 
             elif op == sre_constants.IN: #type:ignore[attr-defined]
                 if (len(args) == 1 and args[0][0] == sre_constants.CATEGORY): #type:ignore[attr-defined]
